@@ -23,6 +23,9 @@ type request struct {
 	ctx  context.Context
 	msg  *Message
 	opts callOptions
+	// done, if not nil, is closed when the call that made the request has
+	// completed. It is set by calls that may get several replies from a node.
+	done <-chan struct{}
 }
 
 // waitForSend returns true if the WithNoSendWaiting call option is not set.
@@ -43,6 +46,30 @@ type responseRouter struct {
 	streaming bool
 	// method is the method of the request that this router waits for.
 	method string
+	// done, if not nil, is closed when the call has completed
+	// and nobody receives from c any more.
+	done <-chan struct{}
+}
+
+// deliver hands resp to the call that the router belongs to.
+// It returns false if the call has completed in the meantime.
+//
+// A call that gets a single reply from each node has room for all of them
+// in its channel. A call that may get several replies from a node can be
+// slower than the node; deliver then waits for the call, but not after the
+// call has completed: nobody would receive the reply, and the caller of
+// deliver holds responseMut, which the completed call needs as well.
+func (r responseRouter) deliver(resp response) bool {
+	if r.done == nil {
+		r.c <- resp
+		return true
+	}
+	select {
+	case r.c <- resp:
+		return true
+	case <-r.done:
+		return false
+	}
 }
 
 type channel struct {
@@ -122,7 +149,7 @@ func (c *channel) cancelPendingMsgs() {
 	c.responseMut.Lock()
 	defer c.responseMut.Unlock()
 	for msgID, router := range c.responseRouters {
-		router.c <- response{nid: c.node.ID(), err: streamDownErr}
+		router.deliver(response{nid: c.node.ID(), err: streamDownErr})
 		// the error is final for this node: the request is not sent again
 		// on a new stream, so also a streaming call must not hear from
 		// this node again.
@@ -140,10 +167,11 @@ func (c *channel) routeResponse(msgID uint64, resp response) {
 			// the generated code asserts the type of the replies it gets.
 			resp = response{nid: c.node.ID(), err: fmt.Errorf("gorums: reply for method %q to a call of %q", resp.method, router.method)}
 		}
-		router.c <- resp
+		delivered := router.deliver(resp)
 		// delete the router if we are only expecting a single reply message,
-		// or if the node reported an error (which is final for this call)
-		if !router.streaming || resp.err != nil {
+		// if the node reported an error (which is final for this call),
+		// or if the call has completed
+		if !router.streaming || resp.err != nil || !delivered {
 			delete(c.responseRouters, msgID)
 		}
 	}
@@ -152,7 +180,7 @@ func (c *channel) routeResponse(msgID uint64, resp response) {
 func (c *channel) enqueue(req request, responseChan chan<- response, streaming bool) {
 	if responseChan != nil {
 		c.responseMut.Lock()
-		c.responseRouters[req.msg.Metadata.MessageID] = responseRouter{responseChan, streaming, req.msg.Metadata.Method}
+		c.responseRouters[req.msg.Metadata.MessageID] = responseRouter{responseChan, streaming, req.msg.Metadata.Method, req.done}
 		c.responseMut.Unlock()
 	}
 	// either enqueue the request on the sendQ or respond with error
